@@ -231,3 +231,32 @@ func init() {
 		}
 	}
 }
+
+// `xzverify debug sterm:<pkg>:<Func>` prints the static terms of all stores and returns of a function.
+func runDebugSTerm(spec string) int {
+	c, err := Load(repoDir(), "")
+	if err != nil {
+		fmt.Println(err)
+		return 2
+	}
+	parts := splitN(spec, ":", 2)
+	fn := c.Func(parts[0], parts[1])
+	if fn == nil {
+		return 2
+	}
+	for _, b := range c.GB(fn) {
+		for _, ins := range b.Instrs {
+			switch x := ins.(type) {
+			case *ssa.Store:
+				fmt.Println(c.InstrPos(ins), "store", staticTerm(c, x.Addr), "=", staticTerm(c, x.Val))
+			case *ssa.Return:
+				for _, rv := range x.Results {
+					fmt.Println(c.InstrPos(ins), "ret", staticTerm(c, rv))
+				}
+			case *ssa.If:
+				fmt.Println(c.InstrPos(ins), "if", staticTerm(c, x.Cond))
+			}
+		}
+	}
+	return 0
+}
